@@ -146,7 +146,7 @@ impl Sim {
     }
     fn can_submit(&self) -> bool {
         if self.reader {
-            self.chan.len() + self.hold.is_some() as usize) < self.pool + 2
+            self.chan.len() + (self.hold.is_some() as usize) < self.pool + 2
         } else {
             self.chan.len() < self.pool
         }
@@ -470,12 +470,19 @@ fn drive_st_writer(ops: &[Op], data: &[u8], level: u64, sink: FaultySink) -> WRu
             };
         }
     }
-    match w.finish() {
-        Ok(_) => WRun { err: None, sink_back: true },
-        Err(e) => WRun {
-            err: Some((ops.len(), nv::errkind(&e))),
-            sink_back: false,
-        },
+    // try_finish + forget: Writer::drop would retry try_finish after an error and write again
+    match w.try_finish() {
+        Ok(()) => {
+            let _ = w.into_inner();
+            WRun { err: None, sink_back: true }
+        }
+        Err(e) => {
+            std::mem::forget(w);
+            WRun {
+                err: Some((ops.len(), nv::errkind(&e))),
+                sink_back: false,
+            }
+        }
     }
 }
 
@@ -711,10 +718,8 @@ fn corrupt(file: &mut Vec<u8>, frames: &[(usize, usize)], spec: &str, salt: u64)
     let (p, sz) = frames[i.parse::<usize>().unwrap()];
     match what {
         "c" => file[p + sz - 8 + (salt % 4) as usize] ^= 1 << (salt % 8),
-        "p" => {
-            let n = sz - 26;
-            file[p + 18 + (salt as usize % n)] ^= 1 << (salt % 8)
-        }
+        // BFINAL of the first DEFLATE block (a flip elsewhere may land in padding bits)
+        "p" => file[p + 18] ^= 1,
         "m" => file[p + (salt % 4) as usize] ^= 0x10,
         "s" => {
             let isz = u32::from_le_bytes(file[p + sz - 4..p + sz].try_into().unwrap());
@@ -958,6 +963,7 @@ fn run_rs(c: &Case) -> Obs {
                 ROp::Read(n) => {
                     let mut b = vec![0u8; *n];
                     match r.read(&mut b) {
+                        Ok(k) if k > 0 && b[..k].iter().all(|&x| x == 0) => format!("ok {k} untouched-buffer"),
                         Ok(k) => format!("ok {k} {:x}", digest(&b[..k])),
                         Err(e) => format!("Err:{}", nv::errkind(&e)),
                     }
@@ -1020,9 +1026,16 @@ fn run_rs(c: &Case) -> Obs {
     let nseeks = ops.iter().filter(|o| matches!(o, ROp::Seek(..))).count();
     let o = Obs::ok("-", nblocks >= 3 && nseeks >= 1);
     if let Some(i) = (0..mt.len().max(st.len())).find(|&i| mt.get(i) != st.get(i)) {
+        // known cause on the single-threaded side: Reader::read with a >= 64 KiB buffer takes the
+        // read_block_into_buf path; at end of input no frame is read and it returns the *previous*
+        // block's length without writing to the buffer (reachable when the last thing read was not
+        // an empty block, e.g. after a seek to the end of the file).  The MT reader returns 0.
+        let st_stale = matches!(ops.get(i), Some(ROp::Read(n)) if *n >= 65536)
+            && st.get(i).is_some_and(|s| s.contains("untouched-buffer"))
+            && mt.get(i).is_some_and(|s| s.contains("-> ok 0 "));
         return o.with_verdict(Err((
-            "mtr-ops-differ-from-st".into(),
-            format!("{ctx} op#{i} mt=[{}] st=[{}] lens={lens:?}", mt.get(i).map_or("-", |s| s), st.get(i).map_or("-", |s| s)),
+            if st_stale { "str-read-into-buf-at-eof-returns-stale-length" } else { "mtr-ops-differ-from-st" }.into(),
+            format!("{ctx} op#{i} mt=[{}] st=[{}] lens={lens:?} history={:?}", mt.get(i).map_or("-", |s| s), st.get(i).map_or("-", |s| s), &st[..i.min(st.len())]),
         )));
     }
     if let Err(k) = fin {
@@ -1228,8 +1241,21 @@ fn generate(rng: &mut Rng, tier: &str, w: &mut CaseWriter) {
             } else {
                 let j = *rng.pick(&cands);
                 let what = *rng.pick(&["c", "p", "m", "s", "z", "t", "c", "p"]);
-                format!("{j}:{what}")
+                // the corruption must be one the single-threaded reader detects, else use the CRC
+                let mut f2 = file.clone();
+                corrupt(&mut f2, &frames, &format!("{j}:{what}"), seed);
+                let mut r = bgzf::io::Reader::new(Cursor::new(f2));
+                if consume_blocks(&mut r).read_err.is_some() {
+                    format!("{j}:{what}")
+                } else {
+                    format!("{j}:c")
+                }
             }
+        };
+        // frames from a frame-level error on are never submitted
+        let nsub = match cspec.split_once(':') {
+            Some((cj, "z" | "t")) => cj.parse::<usize>().unwrap(),
+            _ => frames.len(),
         };
         let spec: Vec<String> = frames
             .iter()
@@ -1246,7 +1272,7 @@ fn generate(rng: &mut Rng, tier: &str, w: &mut CaseWriter) {
             })
             .collect();
         let policy = [1, 2, 3, 4, 2][(i % 5) as usize];
-        let rel = gen_rel(rng, frames.len(), p as usize, true, policy);
+        let rel = gen_rel(rng, nsub, p as usize, true, policy);
         w.push(
             "r",
             vec![
